@@ -35,7 +35,8 @@ type pacDesc struct {
 
 type cfgDesc struct {
 	Upstream string   `json:"upstream,omitempty"` // "scheme://host:port"
-	UpFunc   string   `json:"upfunc,omitempty"`   // "", "direct", "fail", or "scheme://hostport": constant UpstreamProxyFunc
+	UpFunc   string   `json:"upfunc,omitempty"`   // "", "direct", "fail", or "scheme://hostport": UpstreamProxyFunc's answer ...
+	UpFuncByHost map[string]string `json:"upfunc_by_host,omitempty"` // ... unless the request's host is listed here
 	PAC      *pacDesc `json:"pac,omitempty"`
 	Direct   []string `json:"direct"`             // nil: no --direct-domains
 	Mode     string   `json:"mode"`
@@ -147,6 +148,14 @@ type rig struct {
 	upfuncR string
 }
 
+// upFuncAnswer is the (harness-defined) external proxy function: its answer for a host.
+func (d *cfgDesc) upFuncAnswer(hostname string) string {
+	if v, ok := d.UpFuncByHost[hostname]; ok {
+		return v
+	}
+	return d.UpFunc
+}
+
 func parseConst(s string) (*url.URL, error) {
 	switch s {
 	case "direct":
@@ -172,8 +181,8 @@ func newRig(desc cfgDesc, w *world) (*rig, error) {
 		cfg.UpstreamProxy = &url.URL{Scheme: desc.Upstream[:i], Host: desc.Upstream[i+3:]}
 	}
 	if desc.UpFunc != "" {
-		c := desc.UpFunc
-		cfg.UpstreamProxyFunc = func(*http.Request) (*url.URL, error) { return parseConst(c) }
+		d := desc
+		cfg.UpstreamProxyFunc = func(req *http.Request) (*url.URL, error) { return parseConst(d.upFuncAnswer(req.URL.Hostname())) }
 	}
 	if desc.Direct != nil {
 		var items []ruleset.RegexpListItem
@@ -322,6 +331,21 @@ func (s *session) request(kind int, scheme, urlhost string) obsJSON {
 	if r.direct != nil {
 		r.direct.take()
 	}
+	o := s.exchange(kind, scheme, urlhost)
+	r.rt.CloseIdleConnections()
+	o.Dials, o.Recv = r.w.snapshot()
+	if r.pac != nil {
+		o.Pac = r.pac.take()
+	}
+	if r.direct != nil {
+		o.Match = r.direct.take()
+	}
+	return o
+}
+
+// exchange is the client side of one request (no bookkeeping of the scripted network).
+func (s *session) exchange(kind int, scheme, urlhost string) obsJSON {
+	r := s.r
 	var o obsJSON
 	connHdr := "Connection: close\r\n"
 	if s.sameConn {
@@ -410,15 +434,97 @@ func (s *session) request(kind int, scheme, urlhost string) obsJSON {
 	if !s.sameConn {
 		s.close()
 	}
-	r.rt.CloseIdleConnections()
-	o.Dials, o.Recv = r.w.snapshot()
+	return o
+}
+
+func hostOnly(hp string) string {
+	if h, _, err := net.SplitHostPort(hp); err == nil {
+		return h
+	}
+	return strings.Trim(hp, "[]")
+}
+
+// concurrent runs several client sessions AT THE SAME TIME against this one proxy instance and splits the
+// observations of the scripted network by request: every request of a concurrent group uses a host name
+// nobody else uses, and every party is told that name (Host field, CONNECT authority, SOCKS target, absolute
+// URI), so a connection belongs to the request whose host it names.  No dial failures are scripted here, hence
+// every dialled connection carries data and is accounted for; anything left over is reported on every request.
+func (r *rig) concurrent(group [][]reqSpecC) [][]obsJSON {
+	r.w.reset()
+	r.w.failFirst = 0
 	if r.pac != nil {
-		o.Pac = r.pac.take()
+		r.pac.take()
 	}
 	if r.direct != nil {
-		o.Match = r.direct.take()
+		r.direct.take()
 	}
-	return o
+	out := make([][]obsJSON, len(group))
+	var wg sync.WaitGroup
+	for i := range group {
+		wg.Add(1)
+		go func(i int) {
+			defer wg.Done()
+			sess := &session{r: r, sameConn: group[i][0].SameConn}
+			defer sess.close()
+			for _, q := range group[i] {
+				out[i] = append(out[i], sess.exchange(q.Kind, q.Scheme, q.URLHost))
+			}
+		}(i)
+	}
+	wg.Wait()
+	r.rt.CloseIdleConnections()
+	dials, recv := r.w.snapshot()
+	var calls []pacCall
+	var margs []string
+	if r.pac != nil {
+		calls = r.pac.take()
+	}
+	if r.direct != nil {
+		margs = r.direct.take()
+	}
+	used := make([]bool, len(recv))
+	for i := range group {
+		for k, q := range group[i] {
+			h := hostOnly(q.URLHost)
+			o := &out[i][k]
+			for e, ev := range recv {
+				if strings.EqualFold(hostOnly(ev.Named), h) {
+					used[e] = true
+					o.Recv = append(o.Recv, ev)
+					o.Dials = append(o.Dials, ev.Party)
+				}
+			}
+			for _, c := range calls {
+				if c.Hostname == h {
+					o.Pac = append(o.Pac, c)
+				}
+			}
+			for _, a := range margs {
+				if a == h {
+					o.Match = append(o.Match, a)
+				}
+			}
+		}
+	}
+	stray := len(dials) != len(recv)
+	for e := range recv {
+		stray = stray || !used[e]
+	}
+	if stray {
+		for i := range out {
+			for k := range out[i] {
+				out[i][k].Dials = append(out[i][k].Dials, fmt.Sprintf("!unattributed network activity: %d dials, %d connections with data", len(dials), len(recv)))
+			}
+		}
+	}
+	return out
+}
+
+type reqSpecC struct {
+	Kind     int
+	Scheme   string
+	URLHost  string
+	SameConn bool
 }
 
 // proxyURL calls the composed proxy function exactly as martian does (p.ProxyURL(req)), without any network.
